@@ -46,7 +46,7 @@ class Obj:
 
 KEYS = {
     "plain":   {"a": "a", "b": "b", "i": "i", "t1": "t1", "t2": "t2", "e": "e", "l": "l", "g": "g"},
-    "hostile": {"a": "s['b']", "b": "a']['b", "i": ("t", 1), "t1": 1.5, "t2": "é\"q", "e": "s", "l": -7, "g": "s['l']"},
+    "hostile": {"a": "s['b__c']", "b": "a']['b", "i": ("t", 1), "t1": 1.5, "t2": "é\"q", "e": "s", "l": -7, "g": "s['l']"},
     # the two list slots addressed from the end: s['l'][-2], s['l'][-1]  (hash(-1) == hash(-2) in CPython)
     "negidx":  {"a": "a", "b": "b", "i": "i", "t1": "t1", "t2": "t2", "e": "e", "l": "l", "g": "g", "_li": -2},
 }
@@ -578,6 +578,17 @@ def check_node(w, st, prev_cur_ast, fail, stats, do_opaque):
             fail(["C12"], f"unpickled expression has structure {w.abs_expr(pk.val)}, expected {cur_ast}", {})
         elif not same_outcome(outcome(pk.val._get_value), impl):
             fail(["C12"], f"unpickled expression {e!r} evaluates to {outcome(pk.val._get_value)!r}, the original to {impl!r}", {})
+        else:
+            import copy as _copy
+            for how, obj in (("unpickled", pk.val), ("copy.deepcopy of the", outcome(lambda: _copy.deepcopy(e)).val)):
+                if obj is None:
+                    continue
+                d2 = outcome(obj._get_dependencies)
+                got2 = None if d2.exc or not isinstance(d2.val, set) else {w.loc_of(x) or repr(x) for x in d2.val}
+                if got2 != set(obs["locs"]):
+                    fail(["C05", "C12"], f"{how} expression {e!r} reports the dependencies {sorted(map(str, got2 or []))}, the expression contains the locations "
+                         f"{sorted(obs['locs'])}", {})
+                    break
     # -- C06 structural equality ------------------------------------------------------------------------------
     twin = outcome(lambda: w.build(cur_ast))
     if twin.exc:
@@ -594,13 +605,26 @@ def check_node(w, st, prev_cur_ast, fail, stats, do_opaque):
         saved = {l: w.get(l) for l in w.mirror}
         for name, oenv in OPAQUE_ENVS.items():
             for l, v in oenv.items():
-                w.raw_set(l, v)
+                w.raw_set(l, v.copy() if isinstance(v, np.ndarray) else v)
             try:
                 i2 = outcome(e._get_value)
                 m2 = outcome(lambda: w.pyeval(cur_ast))
                 stats["opaque_kind_evaluations"] += 1
                 if not same_outcome(i2, m2):
                     fail(["C04"], f"{e!r} over {name} operands: _get_value() gives {i2!r}, Python on the operand values gives {m2!r}", {"env": name})
+                elif name == "nparray":
+                    # the same expression object evaluated again after its array operands were changed IN PLACE (same objects, new contents)
+                    for l in oenv:
+                        a_ = w.get(l)
+                        if isinstance(a_, np.ndarray):
+                            a_ += 1
+                            a_[0] = 7 - a_[0]
+                    i3 = outcome(e._get_value)
+                    m3 = outcome(lambda: w.pyeval(cur_ast))
+                    stats["inplace_array_reevaluations"] += 1
+                    if not same_outcome(i3, m3):
+                        fail(["C04"], f"{e!r} evaluated again after its array operands were changed in place: _get_value() gives {i3!r}, Python on the current "
+                             f"operand values gives {m3!r}", {"env": name})
             finally:
                 for l, v in saved.items():
                     w.raw_set(l, v)
